@@ -501,6 +501,22 @@ def _run_rand(spec, rec):
     rec.check(np.array_equal(fcp, ~base_raw), "invert/copy-plain-of-inverted",
               lambda: f"copy() of an inverted filter gives "
                       f"{np.asarray(fcp).tolist()}, expected {(~base_raw).tolist()}")
+    # coordinate arrays of different dtypes (integer features such as `index` or
+    # `frame` on one axis, float32 data): the conversions to double are exact, so the
+    # classification must be that of the same double values on *every* point
+    for tag, cx, cy in (("int-x", np.round(P[:, 0]).astype(np.int64), P[:, 1]),
+                        ("int-y", P[:, 0], np.round(P[:, 1]).astype(np.int32)),
+                        ("f32-x", P[:, 0].astype(np.float32), P[:, 1]),
+                        ("f32-y", P[:, 0], P[:, 1].astype(np.float32))):
+        Pm = np.stack([cx.astype(np.float64), cy.astype(np.float64)], axis=1)
+        want = np.asarray(points_in_poly(points=Pm, verts=V), dtype=bool)
+        gm = np.asarray(pf.filter(cx, cy), dtype=bool)
+        rec.check(np.array_equal(gm, want), f"api/filter-mixed-dtype/{tag}",
+                  lambda: f"filter(x {cx.dtype}, y {cy.dtype}) gives {gm.tolist()}, the "
+                          f"same values as float64 give {want.tolist()}; polygon "
+                          f"{verts}, x={cx.tolist()}, y={cy.tolist()}")
+        if not np.array_equal(want, base_raw):
+            rec.cls(f"rand:mixed-dtype-changes-class/{tag}")
     single = np.array([PolygonFilter.point_in_poly((p[0], p[1]), V) for p in pts],
                       dtype=bool)
     compare(single, "point_in_poly", "base")
